@@ -35,12 +35,14 @@ ManyPath(seq) == IF \E c1, c2 \in S.cliques : c1 # c2 /\ SeqRange(seq) \subseteq
                  ELSE Path(seq, TRUE)
 
 \* Kronecker-product query: one small matrix per attribute
-Rows(kind, n) == IF kind \in {"ones", "pick0"} THEN 1 ELSE n
+Rows(kind, n) == IF kind \in {"ones", "pick0", "ramp", "double0"} THEN 1 ELSE n
 KEntry(kind, r, c) == CASE kind = "ones" -> 1
                         [] kind = "identity" -> IF r = c THEN 1 ELSE 0
                         [] kind = "prefix" -> IF c <= r THEN 1 ELSE 0
                         [] kind = "pick0" -> IF c = 0 THEN 1 ELSE 0
                         [] kind = "twice" -> IF r = c THEN 2 ELSE 0
+                        [] kind = "ramp" -> c                         \* one weighted row (0, 1, 2, ...)
+                        [] kind = "double0" -> IF c = 0 THEN 2 ELSE 0   \* one weighted row (2, 0, ...)
 RECURSIVE ProdOver(_, _, _, _)
 ProdOver(seq, kinds, r, x) == IF seq = <<>> THEN 1
                               ELSE KEntry(kinds[Head(seq)], r[Head(seq)], x[Head(seq)]) * ProdOver(Tail(seq), kinds, r, x)
@@ -57,6 +59,7 @@ Do(c) ==
                   [] c.k = "krondot" -> [path |-> "krondot", a |-> Krondot(c.kinds)]
                   [] c.k = "datavector" -> [path |-> "datavector", a |-> Answer(S.ord)]
                   [] c.k = "saveload" -> [path |-> "saveload", a |-> <<>>]
+                  [] c.k = "synth" -> [path |-> "synth", a |-> <<>>]      \* generating records is a read-only use of the model
      IN  hist' = Append(hist, [call |-> c, ans |-> ans, cached |-> cached])
   /\ cached' = (cached \/ c.k = "many")           \* l.72: bulk queries populate model.marginals
   /\ UNCHANGED <<sid, joint, cached0>>
